@@ -86,6 +86,6 @@ def tie_profile(ctx):
 
 def run(ctx):
     streams.hist_corr(ctx, ents=ENTS, nhist=ctx.n(8, 100))
-    streams.fn_corr(ctx, ents=ENTS, ncases=ctx.n(45, 600), sizes=(1, 2, 3, 5, 8, 13, 40, 60))
+    streams.fn_corr(ctx, ents=ENTS, ncases=ctx.n(45, 600), sizes=(1, 2, 3, 5, 8, 13, 40, 60) if ctx.quick else (1, 2, 3, 5, 8, 13, 40, 60, 200))
     exhaustive(ctx)
     tie_profile(ctx)
